@@ -89,6 +89,10 @@ def derived(vc):
     g = lambda name: vc.run(lambda: vc.interp.getattr(f, name))
     vc.ensure('C05/fmid/post', eq(g('fmid').value, (F['fmin'] + F['fmax']) / 2))
     vc.ensure('C05/t_stop/post', eq(g('t_stop').value, F['t_start'] + T * dt))
+    # derived quantities are functions of the frame's *current* state: re-timing the frame (as Cadence.overwrite_times does) moves t_stop with it
+    t_new = Real('t_start_after_retiming')
+    vc.interp.setattr(f, 't_start', t_new)
+    vc.ensure('C05/t_stop/post/follows-a-re-timed-start', eq(g('t_stop').value, t_new + T * dt))
     vc.ensure('C05/obs_length/post', eq(g('obs_length').value, T * dt))
     te = g('ts_ext')
     vc.ensure('C05/ts_ext/exc/none', te.ok)
